@@ -1098,7 +1098,9 @@ func c04BatchResponses(p *Prog, r *Report, R4 string, ne1, nk1, nk2 int64) {
 	name := "batch response list"
 	wfn := anchor(p, r, R4, "(~/tokens/batched.BasicBatchedIssuer).EvaluateBatch")
 	if wfn != nil {
-		t := p.returnTermWith(wfn)
+		ws := p.NewSym(wfn)
+		ws.keepSlots = true // the entries are described in terms of the response slots (C05 decides what a slot holds)
+		t := ws.returnTerm()
 		got := "<none>"
 		if t != nil {
 			got = t.String()
